@@ -114,9 +114,21 @@ Definition C07_ok (c : rtcase) : bool :=
 
 (* verdicts: 0 agree and ok; 1 model <> implementation but ok holds of the implementation's trace;
    2 ok fails on the implementation's trace; 3 model out of fuel *)
+(* programs using then_stream on a stream (flatten_unordered) are outside the runtime model: for them the
+   verdict rests on [ok] alone (C04_ok / RC_ok compare them with the reference semantics) *)
+Definition case_flat (c : rtcase) : bool :=
+  match c with (_, _, p, hs, _, _) => cmd_flat p || existsb (fun h => cmd_flat (snd h)) hs end.
+(* recorded finding (KNOWN_FINDINGS.txt class flat_task_never_evicted): the history drops a one-shot request
+   made inside a builder chain with a then_stream on a stream; the task is then never evicted *)
+Definition leak_class (c : rtcase) : bool :=
+  match c with (_, _, p, hs, acts, _) =>
+    let tags := cmd_flat_once_tags p ++ flat_map (fun h => cmd_flat_once_tags (snd h)) hs in
+    existsb (fun a => match a with ADropReq tg _ _ => existsb (Nat.eqb tg) tags | _ => false end) acts
+  end.
 Definition verdict_with (ok : rtcase -> bool) (c : rtcase) : N :=
   match c with (_, _, _, _, _, impl) =>
-    if negb (ok c) then 2%N else
+    if negb (ok c) then (if leak_class c then 101%N else 2%N) else
+    if case_flat c then 0%N else
     match model_trace c with
     | None => 3%N
     | Some t => if list_eqb obs_eqb t impl then 0%N else 1%N
@@ -159,6 +171,7 @@ Definition hcase := (cmd * list action * list action * list (list hstep))%type.
 Definition verdict_C05 (c : hcase) : N :=
   match c with (p, inputs, acts, traces) =>
     if negb (C05_ok inputs traces) then 2%N else
+    if cmd_flat p then 0%N else
     match direct FUEL0 p acts with
     | None => 3%N
     | Some t => match fold_hsteps t, traces with
@@ -202,7 +215,7 @@ Fixpoint list_eqb2 {A B} (eqb : A -> B -> bool) (a : list A) (b : list B) : bool
   | _, _ => false
   end.
 Definition in_fragment (c : rtcase) : bool :=
-  match c with (core, _, p, _, acts, _) => negb core && cmd_abort_free p && sched_abort_free acts end.
+  match c with (core, _, p, _, acts, _) => negb core && cmd_abort_free p && cmd_flat_ok p && sched_abort_free acts end.
 Definition C04_ok (c : rtcase) : bool :=
   match c with (_, _, p, _, acts, t) =>
     no_panic t &&
@@ -242,7 +255,7 @@ Definition kobs_obs_eqb (r : kobs) (o : obs) : bool :=
   | _, _ => false
   end.
 Definition in_core_fragment (c : rtcase) : bool :=
-  match c with (core, _, _, hs, acts, _) => core && handlers_cancel_free hs && sched_abort_free acts end.
+  match c with (core, _, _, hs, acts, _) => core && handlers_cancel_free hs && forallb (fun h => cmd_flat_ok (snd h)) hs && sched_abort_free acts end.
 (* 0 outside the fragment | 1 inside, request names ambiguous somewhere | 2 inside and compared *)
 Definition core_fragment_flag (c : rtcase) : N :=
   if negb (in_core_fragment c) then 0%N else
@@ -265,3 +278,4 @@ Definition verdicts_RC (cs : list rtcase) : list N := map (verdict_with RC_ok) c
 Definition verdicts_C01R (cs : list rtcase) : list N := map (verdict_with (fun c => C01_ok c && RC_ok c)) cs.
 Definition verdicts_C04R (cs : list rtcase) : list N := map (verdict_with (fun c => C04_ok c && RC_ok c)) cs.
 Definition core_fragment_flags (cs : list rtcase) : list N := map core_fragment_flag cs.
+Definition flat_flags (cs : list rtcase) : list N := map (fun c => if case_flat c then 1%N else 0%N) cs.
